@@ -331,7 +331,7 @@ def stage(o, tier, seed):
     rnd = random_cases(seed, 6000 if thorough else 700)
     o.extra["bcast_cases_enumerated_by_tlc"] = len(cases)
     sch = enum + rnd
-    vlib.conformance(o, FAMILY, TRACE, TCFG, PKG, sch, tag="bcast", chunk=max(250, len(sch) * 2 // max(4, min(vlib.NCPU, 12))),
+    vlib.conformance(o, FAMILY, TRACE, TCFG, PKG, sch, tag="bcast", chunk=800,   # ~2.7 s per TLC start, ~2 ms per trace
                      exec_timeout=900, tv_timeout=600)
     tr = vlib.split_traces(vlib.read_ndjson(os.path.join(vlib.workdir(o.pid), "trace_bcast.ndjson")))
     if not o.violations:
